@@ -258,7 +258,8 @@ class Backend(Harness):
         if op == "verify":
             return lambda: H.verify(PW, K[self.hname])
         if op == "has_backend":
-            last = H.backends[-1]
+            # (bcrypt: the pure-python backend's self-test costs seconds; its dry run is probed with os_crypt)
+            last = "os_crypt" if self.hname == "bcrypt" else H.backends[-1]
             return lambda: H.has_backend(last)
         if op == "get_backend":
             return lambda: H.get_backend()
